@@ -31,7 +31,7 @@ def check(world, tier):
     # ---------------- C10.a no panic / no out-of-bounds
     a = rep.clause("C10.a", "no panic and no out-of-bounds read in the decoder, for every byte string")
     obs = obligations(eng)
-    a.need(len(obs), 40, "panic obligations in the decoder (asserts, slice ranges)")
+    a.need(len(obs), 12, "panic obligations in the decoder (asserts, slice ranges)")   # (checked accessors such as get / split_at / first leave fewer of them)
     for o in obs:
         a.ob(o.proven, ob_key(o) + " via " + "/".join(short(frame_fn((f,))) for f in o.ctx[-2:]),
              "cannot discharge %s in %s: %s" % (o.detail, short(o.body), o.residual), o.loc,
